@@ -998,8 +998,9 @@ THEOREMS.update({
     "C09": ("Dirk.Props.C09", ["Dirk.C09_scatter_partition", "Dirk.C09_batch_eq_seq", "Dirk.C09_live_att_rule",
                                "Dirk.C09_live_prop_rule"]),
     "C11": ("Dirk.Props.C11", ["Dirk.C11_codec_roundtrip", "Dirk.C11_restart", "Dirk.C11_import_export_same_decisions"]),
-    "C10": ("Dirk.Props.C10", ["Dirk.C10_never_lowers", "Dirk.C10_protects", "Dirk.C10_bad_metadata",
-                               "Dirk.C10_parse_error_no_change", "Dirk.C10_legacy_counterexample"]),
+    "C10": ("Dirk.Props.C10", ["Dirk.C10_never_lowers", "Dirk.C10_protects", "Dirk.C10_composes", "Dirk.C10_refuses_after_prop",
+                               "Dirk.C10_refuses_after_att", "Dirk.C10_bad_metadata", "Dirk.C10_parse_error_no_change",
+                               "Dirk.C10_legacy_counterexample"]),
     "C07": ("Dirk.Props.C07", ["Dirk.C07_scan_eq_spec", "Dirk.C07_default_deny", "Dirk.C07_unknown_client", "Dirk.C07_no_identity",
                                "Dirk.C07_refused_no_effect_att", "Dirk.C07_refused_no_effect_prop", "Dirk.C07_refused_no_effect_sign",
                                "Dirk.C07_refused_no_effect_atts", "Dirk.C07_resolved_account", "Dirk.C07_legacy_counterexample",
